@@ -82,6 +82,12 @@ type Op struct {
 	// first. Again "attrs" / "event": the primary span gets a second call,
 	// SetAttributes(s...) / AddEvent("again", WithAttributes(s...)), with the
 	// same slice after the first returned.
+	//
+	// link ops: the caller re-uses the trace.Link VALUE it built (never writing
+	// to it): Share 1 / 2 gives the same Link to the sibling span's AddLink
+	// after / before the primary call; Again "link" adds the same Link to the
+	// primary span a second time, Again "attrs" / "event" passes the Link's
+	// Attributes slice to SetAttributes / AddEvent("again", ...) afterwards.
 	Share int    `json:"share,omitempty"`
 	Again string `json:"again,omitempty"`
 }
@@ -115,6 +121,10 @@ type Case struct {
 	// SibDeprecated: the sibling's numbers go through the deprecated
 	// WithSpanLimits (zero / negative numbers mean the documented defaults).
 	SibDeprecated bool `json:"sib_deprecated,omitempty"`
+	// StartLinksShared: the trace.Link values given to WithLinks at the start
+	// of the primary span are afterwards added, one by one, to the sibling
+	// span with AddLink (the same Link values, same Attributes slices).
+	StartLinksShared bool `json:"start_links_shared,omitempty"`
 }
 
 // eff is the case with the numbers of Limits / Sib replaced by the limits the
@@ -302,6 +312,14 @@ func genOp(t *rapid.T, o genOpts, idx int, heavy bool, allowEnd bool, hasSib boo
 			op.Share = rapid.SampledFrom([]int{0, 0, 1, 1, 2}).Draw(t, "share")
 		}
 		op.Again = rapid.SampledFrom([]string{"", "", "", "", "", "attrs", "event"}).Draw(t, "again")
+	case "link":
+		// the caller re-uses the Link VALUE (same Attributes slice object): for
+		// the sibling span's AddLink, for a second AddLink on the same span, or
+		// its attribute list for SetAttributes / an event.
+		if hasSib {
+			op.Share = rapid.SampledFrom([]int{0, 0, 1, 1, 2}).Draw(t, "share")
+		}
+		op.Again = rapid.SampledFrom([]string{"", "", "", "", "attrs", "attrs", "event", "link"}).Draw(t, "again")
 	}
 	return op
 }
@@ -438,9 +456,9 @@ func gen(t *rapid.T) Case {
 			ValueLen: rapid.SampledFrom([]int{-1, -1, -1, 128, 5, 3, 1, 0}).Draw(t, "sib_value_len"),
 			Attrs:    rapid.SampledFrom([]int{-1, -1, 128, 5, 2, 0}).Draw(t, "sib_attrs"),
 			Events:   rapid.SampledFrom([]int{-1, -1, 128, 3, 0}).Draw(t, "sib_events"),
-			Links:    -1,
+			Links:    rapid.SampledFrom([]int{-1, -1, -1, 128, 2}).Draw(t, "sib_links"),
 			PerEvent: rapid.SampledFrom([]int{-1, -1, 128, 2}).Draw(t, "sib_per_event"),
-			PerLink:  -1,
+			PerLink:  rapid.SampledFrom([]int{-1, -1, -1, 128, 3, 1}).Draw(t, "sib_per_link"),
 		}
 	}
 	// Key alphabet: small (many duplicates, reaches the small capacities) or
@@ -509,6 +527,9 @@ func gen(t *rapid.T) Case {
 		}
 		for i := 0; i < n; i++ {
 			c.StartLinks = append(c.StartLinks, genLink(t, ol))
+		}
+		if c.HasSib {
+			c.StartLinksShared = rapid.Bool().Draw(t, "startlinksshared")
 		}
 	}
 	pre := vk.GenLen(34, 0, 1, 2, 3, 5, 8, 12).Draw(t, "pre")
